@@ -498,6 +498,12 @@ func c14Package(c *Ctx) {
 		"main.go":              "package p\n\nvar V = 1\n",
 		"a/x.go":               "package p\n\nvar A = 2\n",
 		"b/x.go":               "package p\n\nvar B = 3\n",
+		// keys of a package assembled by hand: not in their shortest spelling, not ASCII (the key is the
+		// cursor's Name() and locates the file in Parent().Files as it is)
+		"./c.go":      "package p\n\nvar C = 4\n",
+		"gen//d.go":   "package p\n\nvar D = 5\n",
+		"x/../e.go":   "package p\n\nvar E = 6\n",
+		"näme/./ü.go": "package p\n\nvar Ü = 7\n",
 	}
 	type script struct {
 		name     string
@@ -543,7 +549,7 @@ func c14Package(c *Ctx) {
 		dres := guard(func() {
 			dstutil.Apply(dpkg, func(cur *dstutil.Cursor) bool {
 				if f, ok := cur.Node().(*dst.File); ok && cur.Parent() == dst.Node(dpkg) {
-					dlog = append(dlog, "pre "+dname[f])
+					dlog = append(dlog, "pre "+dname[f]+" as "+cur.Name())
 					if dk == sc.deleteAt {
 						cur.Delete()
 						dlog = append(dlog, "delete")
@@ -566,7 +572,7 @@ func c14Package(c *Ctx) {
 		ares := guard(func() {
 			astutil.Apply(apkg, func(cur *astutil.Cursor) bool {
 				if f, ok := cur.Node().(*ast.File); ok && cur.Parent() == ast.Node(apkg) {
-					alog = append(alog, "pre "+aname[f])
+					alog = append(alog, "pre "+aname[f]+" as "+cur.Name())
 					if ak == sc.deleteAt {
 						cur.Delete()
 						alog = append(alog, "delete")
